@@ -21,14 +21,14 @@ CLAIMED = {
     ),
     "C02": (
         "proof: on the Python-faithful model: against any exchange that answers GETBULK like a conformant agent with 1..max-"
-        "repetitions repetitions shortened anywhere behind the first (all truncation policies of the model agent that keep one "
-        "repetition are proved to be such), for every repetition count >= 1 and pairwise disjoint roots in any order, the bulk walk "
-        "ends normally and yields every entry strictly below a root, database entries only (C02_bulk_complete), hence exactly the "
-        "instance set of the GETNEXT walk, each once (C02_bulk_eq_getnext); for ANY agent: nothing outside the roots, nothing "
-        "twice, order independence, and size 1 IS the GETNEXT walk; GETBULK bound = N+M*R over the generated expression; bulk walk "
-        "wire traces correspond to the implementation for sizes x truncation policies incl. responses shorter than one repetition",
-        "responses shorter than one repetition (RFC 3416 4.2.3, the fetcher's completion requests) are covered by correspondence "
-        "and the oracle, not by the theorem; conformant agent semantics are spec-side definitions",
+        "repetitions repetitions shortened ANYWHERE (also inside the first repetition, RFC 3416 4.2.3; every truncation policy "
+        "of the model agent is proved to be such), for every repetition count >= 1 and pairwise disjoint roots in any order, "
+        "the bulk walk (fetcher incl. its completion requests) ends normally and yields every entry strictly below a root, "
+        "database entries only (C02_bulk_complete), hence exactly the instance set of the GETNEXT walk, each once "
+        "(C02_bulk_eq_getnext); for ANY agent: nothing outside the roots, nothing twice, order independence, and size 1 IS "
+        "the GETNEXT walk; GETBULK bound = N+M*R over the generated expression; bulk walk wire traces correspond to the "
+        "implementation for sizes x truncation policies",
+        "the theorems are about the model; the tie to raw.py/util.py is the wire-trace correspondence (sampled); conformant agent semantics are spec-side definitions",
     ),
     "C03": (
         "proof: on the Python-faithful model, for an ARBITRARY exchange function and pairwise disjoint roots: the "
